@@ -283,3 +283,68 @@ func ruleR20c(c *Ctx) {
 		c.check(strings.Contains(s, "IsNil()"), "R20c", "data.NewWith nil-slice", cc.Pos(), "a nil slice is handled before indexing", "nil slices are not tested")
 	}
 }
+
+// R20f: Int and Float compare numerically: in each cross-kind arm of Equals both sides are converted to
+// float64 (truncating one side to the other's kind makes 1 == 1.5, and only in one direction).
+func ruleR20f(c *Ctx) {
+	p := c.pkg("data")
+	if p == nil {
+		return
+	}
+	info := p.TypesInfo
+	n := 0
+	for _, fd := range c.allFuncDecls("data") {
+		if fd.Name.Name != "Equals" || fd.Recv == nil {
+			continue
+		}
+		kind := recvTypeName(fd.Recv.List[0].Type)
+		if kind != "Int" && kind != "Float" {
+			continue
+		}
+		other := map[string]string{"Int": "Float", "Float": "Int"}[kind]
+		ast.Inspect(fd.Body, func(x ast.Node) bool {
+			cc, ok := x.(*ast.CaseClause)
+			if !ok || len(cc.List) != 1 {
+				return true
+			}
+			tv, ok := info.Types[cc.List[0]]
+			if !ok || !tv.IsType() {
+				return true
+			}
+			if _, tn, ok := relPkgOfType(tv.Type); !ok || tn != other {
+				return true
+			}
+			n++
+			key := "data." + kind + ".Equals cross-kind " + other
+			good := false
+			for _, s := range cc.Body {
+				r, ok := s.(*ast.ReturnStmt)
+				if !ok || len(r.Results) != 1 {
+					continue
+				}
+				be, ok := ast.Unparen(r.Results[0]).(*ast.BinaryExpr)
+				if !ok || be.Op != token.EQL {
+					continue
+				}
+				isF64 := func(e ast.Expr) bool {
+					call, ok := ast.Unparen(e).(*ast.CallExpr)
+					if !ok || len(call.Args) != 1 {
+						return false
+					}
+					t, ok := info.Types[call.Fun]
+					if !ok || !t.IsType() {
+						return false
+					}
+					b, ok := t.Type.(*types.Basic)
+					return ok && b.Kind() == types.Float64
+				}
+				if isF64(be.X) && isF64(be.Y) {
+					good = true
+				}
+			}
+			c.check(good, "R20f", key, cc.Pos(), "both operands are converted to float64 before comparing", "the "+other+" arm of "+kind+".Equals does not compare both values as float64: a fractional value can equal the integer it truncates to, in one direction only")
+			return true
+		})
+	}
+	c.floor("R20f", "cross-kind arms of numeric Equals", 2, n)
+}
